@@ -50,7 +50,8 @@ theorem reach_firstLoadInv {g : List NodeInfo} {s : State} (h : Reach g s) : Fir
 def CompleteInv (s : State) : Prop :=
   ∀ q f, (s.m ⟨q, f, .fork⟩).disk.has .complete = true → ∀ p ∈ s.pre q, nodeDone s p = true
 
-theorem completeInv_step {s : State} {e : Ev} (hobj : ObjsInv s) (hpre : PreInv s)
+theorem completeInv_step {s : State} {e : Ev} (hobj : ObjsInv s) (hfull : s.full = false)
+    (hpre : PreInv s)
     (hfl : FirstLoadInv s) (h : CompleteInv s) (hen : enabled s e = true) :
     CompleteInv (apply s e) := by
   intro q f hc p hp
@@ -61,12 +62,12 @@ theorem completeInv_step {s : State} {e : Ev} (hobj : ObjsInv s) (hpre : PreInv 
       unfold mrpWriteOk at hw
       simp only [Bool.and_eq_true, beq_iff_eq] at hw
       have hd := hpre hph q hw.1.1.2 p hp
-      exact done_stable hobj hen (fun hl => by rw [hph] at hl; cases hl) hd
+      exact done_stable hobj hfull hen (fun hl => by rw [hph] at hl; cases hl) hd
     · subst h'; have := (en_jobend hen).1; simp [Role.isJob] at this
     · rcases h' with h' | h' <;> cases h'
     · cases h'
     · cases h'
-  · refine done_stable hobj hen (fun hl h0 => ?_) (h q f hold p hp)
+  · refine done_stable hobj hfull hen (fun hl h0 => ?_) (h q f hold p hp)
     have := (hfl h0 hl ⟨q, f, .fork⟩).2
     rw [hold] at this; cases this
 
@@ -74,7 +75,7 @@ theorem reach_completeInv {g : List NodeInfo} {s : State} (h : Reach g s) : Comp
   induction h with
   | init => intro q f hc; cases hc
   | step hr hen ih =>
-    exact completeInv_step (reach_objsInv hr) (reach_preInv hr) (reach_firstLoadInv hr) ih hen
+    exact completeInv_step (reach_objsInv hr) (reach_full hr) (reach_preInv hr) (reach_firstLoadInv hr) ih hen
 
 theorem scanForks_done_false {l : List FState} {d : Bool} (h : scanForks l d = .done false) :
     d = false ∨ ∃ x ∈ l, x = .complete := by
@@ -139,5 +140,24 @@ theorem upstream_done {s : State} (hobj : ObjsInv s) (hci : CompleteInv s) {n p 
     · obtain ⟨f, hf⟩ := nodeState_complete_fork hobj hc
       exact hci _ f hf
     · exact absurd hd hnd
+
+
+/-! ### `FullStageReset` mode: the mode-independent invariants -/
+
+theorem reachFull_objsInv {g : List NodeInfo} {s : State} (h : ReachFull g s) : ObjsInv s := by
+  induction h with
+  | init => intro o; exact objInv_empty _ _
+  | step _ hen ih => exact objsInv_step hen ih
+
+theorem reachFull_launchInv {g : List NodeInfo} {s : State} (h : ReachFull g s) :
+    LaunchInv s := by
+  induction h with
+  | init => constructor <;> simp [initFull]
+  | step hr hen ih => exact launchInv_step hen (reachFull_objsInv hr) ih
+
+theorem reachFull_full {g : List NodeInfo} {s : State} (h : ReachFull g s) : s.full = true := by
+  induction h with
+  | init => rfl
+  | step _ _ ih => rw [apply_full]; exact ih
 
 end Martian.Sched
